@@ -317,10 +317,10 @@ func LeafValues(t *schema.Type, depth int) []*Value {
 	case "date":
 		out := []*Value{
 			{T: t, Ticks: 0},
-			{T: t, Ticks: 16094592000000000},                      // 2021-01-01
+			{T: t, Ticks: 16094592000000000},                     // 2021-01-01
 			{T: t, Ticks: 16094592000000000 + 1234567, DateV: 1}, // non-UTC location
-			{T: t, Ticks: 16094592001234567, DateV: 2},            // sub-tick nanoseconds truncated
-			{T: t, Ticks: -8520336000 * 10000000},                 // 1700-01-01, negative ticks
+			{T: t, Ticks: 16094592001234567, DateV: 2},           // sub-tick nanoseconds truncated
+			{T: t, Ticks: -8520336000 * 10000000},                // 1700-01-01, negative ticks
 			{T: t, Ticks: 0x0102030405060708},
 			{T: t, Ticks: 1},
 		}
@@ -570,6 +570,16 @@ func bigValue(t *schema.Type, n int) *Value {
 			v.Vals = append(v.Vals, vv[i%len(vv)])
 		}
 		return v
+	case schema.RecT:
+		// a nested big record: its smallest big value for the smaller sizes, its largest for the largest size
+		if IsBig(t.Rec) {
+			if bv := BigValues(t.Rec, false); len(bv) > 0 {
+				if n >= BigSizes[len(BigSizes)-1] {
+					return &Value{T: t, Rec: bv[len(bv)-1]}
+				}
+				return &Value{T: t, Rec: bv[0]}
+			}
+		}
 	}
 	return nil
 }
@@ -614,6 +624,59 @@ func BigValues(r *schema.Record, thorough bool) []*RecValue {
 				}
 			}
 			return out
+		}
+	}
+	return out
+}
+
+// HugeSize is a payload length well above the decoders' allocation budget (1 MiB + 64 B per input byte): a decoder
+// that sizes an allocation from the announced length of a truncated huge payload is out of proportion to its input.
+const HugeSize = 3 << 20
+
+func hugeValue(t *schema.Type) *Value {
+	switch t.Kind {
+	case schema.Prim:
+		if t.Name == "string" {
+			return &Value{T: t, Str: strings.Repeat("0123456789abcdef", HugeSize/16)}
+		}
+	case schema.ArrayT:
+		if t.Elem.Kind == schema.Prim && (t.Elem.Name == "byte" || t.Elem.Name == "uint8") {
+			return bigValue(t, HugeSize)
+		}
+	case schema.RecT:
+		if hv := HugeValues(t.Rec); len(hv) > 0 {
+			return &Value{T: t, Rec: hv[0]}
+		}
+	}
+	return nil
+}
+
+// HugeValues builds values of the record in which one string / byte-array field (possibly inside a nested record)
+// holds HugeSize bytes and everything else is small. Used for truncation near the header only.
+func HugeValues(r *schema.Record) []*RecValue {
+	var out []*RecValue
+	switch r.Kind {
+	case schema.Struct, schema.Message:
+		for i, f := range r.Fields {
+			h := hugeValue(f.Type)
+			if h == nil {
+				continue
+			}
+			rv := &RecValue{R: r, Fields: make([]*Value, len(r.Fields))}
+			for j, g := range r.Fields {
+				if j == i {
+					rv.Fields[j] = h
+				} else if r.Kind == schema.Struct {
+					rv.Fields[j] = Values(g.Type, 1)[1]
+				}
+			}
+			out = append(out, rv)
+		}
+	case schema.Union:
+		for bi, br := range r.Branches {
+			for _, iv := range HugeValues(br.Rec) {
+				out = append(out, &RecValue{R: r, Branch: bi, Inner: iv})
+			}
 		}
 	}
 	return out
